@@ -401,13 +401,28 @@ func wmWait(c core.Case, res *core.Result) {
 		cancel   context.CancelFunc
 		never    bool
 		canceled bool
+		exited   chan struct{} // closed when the waiter goroutine has returned
 	}
 	top := uint64(5 + r.Intn(20))
 	var ws []*waiter
+	// Stop closes the mark channel: no waiter goroutine may still be on its way into WaitForMark
+	// then (it would panic with 'send on closed channel' - a fault of this harness, not of the code)
+	defer func() {
+		for _, wt := range ws {
+			wt.cancel()
+		}
+		for _, wt := range ws {
+			select {
+			case <-wt.exited:
+			case <-time.After(c13Patience()):
+			}
+		}
+	}()
 	start := func(t uint64, never bool) *waiter {
 		ctx, cancel := context.WithCancel(context.Background())
-		wt := &waiter{t: t, done: make(chan error, 1), cancel: cancel, never: never}
+		wt := &waiter{t: t, done: make(chan error, 1), cancel: cancel, never: never, exited: make(chan struct{})}
 		go func() {
+			defer close(wt.exited)
 			err := w.WaitForMark(ctx, t)
 			if err == nil {
 				wt.after.Store(w.DoneUntil())
